@@ -25,6 +25,9 @@ var runTracerouteOnceFn = runTracerouteOnce
 
 func runTracerouteOnce(ctx context.Context, params TracerouteParams, destinationPort int) (*result.TracerouteRun, error) {
 	var trRun *result.TracerouteRun
+	if params.MinTTL < 1 || params.MinTTL > 255 || params.MaxTTL < 1 || params.MaxTTL > 255 {
+		return nil, fmt.Errorf("invalid TTL range: MinTTL=%d MaxTTL=%d (must be within 1..255)", params.MinTTL, params.MaxTTL)
+	}
 	switch params.Protocol {
 	case "udp":
 		target, err := parseTarget(params.Hostname, destinationPort, params.WantV6)
